@@ -2,6 +2,7 @@ package sql
 
 import (
 	"fmt"
+	"strconv"
 	"strings"
 )
 
@@ -228,7 +229,8 @@ type FloatVal struct {
 }
 
 func (f *FloatVal) String(ctx *Ctx, options ...int) (string, error) {
-	return fmt.Sprintf("%f", f.val), nil
+	// shortest decimal that parses back to the same float64 ("%f" keeps six decimals only)
+	return strconv.FormatFloat(f.val, 'f', -1, 64), nil
 }
 
 func NewFloatVal(f float64) SQLObject {
